@@ -14,6 +14,7 @@ pub mod props;
 pub mod rng;
 pub mod runner;
 pub mod scenarios;
+pub mod sleephook;
 pub mod tape;
 pub mod world;
 pub mod xmlcheck;
